@@ -98,7 +98,8 @@ package crlrepository
 //@   ensures[C12,C16] loaded_means_meta_on_disk: err == nil && ret.Loaded ==> storeHas(ret.CRLStore, sum64(crlstore.MetaInfoKey))
 
 //@ func Repository.createTempFile
-//@   props C20 C07
+//@   props C20 C07 C12
+//@   ensures[C12,C20] download_file_lives_in_the_work_dir_under_a_temp_name: called(CreateTemp#1) && arg(CreateTemp#1, 0) == R.crlConfig.WorkDir && arg(CreateTemp#1, 1) == "crl_*_tmp"
 //@   requires repoOK(R)
 //@   assigns X.fs
 
@@ -142,6 +143,7 @@ package crlrepository
 //@   props C04 C11 C12 C13 C16 C20
 //@   requires repoOK(R) && entryShell(entry) && chains != nil && chainsOK(chains)
 //@   requires[C13] entry_lock_held: wheld(entry.entryLock)
+//@   requires[C08,C11] first_load_only: !entry.Loaded
 //@   requires entryInv(entry)
 //@   ensures entryInv(entry)
 //@   assigns crlrepository.Entry.CRLStore, crlrepository.Entry.Loaded, crlrepository.Entry.LastUpdateSignatureVerifyFailed, crlrepository.Entry.LastUpdateSignature, crlrepository.Entry.Chains, M.map[string][]uint8, X.ldbhas, X.fs, X.net, X.retry, X.stream, X.spos, X.hacc, X.hkind, E.uint8, E.any, fresh:E.*core.CertificateChainEntry, H.crlloader.MultiSchemesCRLLoader, H.crlloader.URLLoader, H.crlloader.FileLoader
